@@ -145,7 +145,7 @@ pub fn run(ctx: &mut Ctx) {
         .into();
     ctx.assumptions = vec!["u32 states: 64-bit fingerprint collisions are ignored".into()];
     let ctx = &*ctx;
-    ctx.cases("verdicts", ctx.n(400, 20000), 0, |case| {
+    ctx.cases("verdicts", ctx.n(3000, 40000), 0, |case| {
         let mut g = gen_graph(&mut case.rng, &Knobs::default());
         let reach = g.reach();
         let k = case.rng.range(1, 6);
@@ -208,7 +208,7 @@ pub fn run(ctx: &mut Ctx) {
             judge(case, &model, &reach, strategy.name(), threads, &out);
         }
     });
-    ctx.cases("verdicts_dfs_symmetry", ctx.n(150, 8000), 0, |case| {
+    ctx.cases("verdicts_dfs_symmetry", ctx.n(1500, 20000), 0, |case| {
         let pairs = case.rng.range(1, 10);
         let mut g = gen_mirror_graph(&mut case.rng, pairs);
         let reach = g.reach();
